@@ -4,6 +4,9 @@ CONSTANTS
   MaxDepth = 2
   MaxRoots = 1
   RootFilter = {"users", "allPets", "nestedType"}
+  FieldFilter = {}
+  MaxReval = 0
   Mut = "none"
 SPECIFICATION GenSpec
+
 CHECK_DEADLOCK FALSE
